@@ -13,9 +13,8 @@ import (
 // VerifRanked exposes rendezvousRanked over the node's current peer list.
 func (p *PeerPool) VerifRanked(subscriberID string) []string {
 	p.mu.RLock()
-	nodes := p.peerNodes
-	p.mu.RUnlock()
-	return append([]string(nil), rendezvousRanked(subscriberID, nodes)...)
+	defer p.mu.RUnlock()
+	return append([]string(nil), rendezvousRanked(subscriberID, p.peerNodes)...)
 }
 
 // VerifHealthyOwner exposes getHealthyOwner.
